@@ -40,9 +40,9 @@ Lemma skel_buryStore_ok : skel_buryStore =
   [Lock "c"; DeferUnlock "c"; Call "GetStore"; IfE "store == nil" [Ret] []; Call "IsTombstone"; IfE "store.IsTombstone()" [Ret] []; IfE "store.IsUp()" [Ret] []; Call "TombstoneStore"; Call "Clone"; Call "putStoreLocked"; Call "onStoreVersionChangeLocked"; Ret].
 Proof. reflexivity. Qed.
 
-(* SetStoreWeight: the two weight keys are written BEFORE the meta record (three writes: model do_weight idx 0,1,2) *)
+(* SetStoreWeight: the two weight keys are written BEFORE the meta record (three writes: model do_weight idx 0,1,2); when putStoreLocked fails the served weights are saved again *)
 Lemma skel_SetStoreWeight_ok : skel_SetStoreWeight =
-  [Lock "c"; DeferUnlock "c"; Call "GetStore"; IfE "store == nil" [Ret] []; Call "SaveStoreWeight"; IfE "err != nil" [Ret] []; Call "SetLeaderWeight"; Call "SetRegionWeight"; Call "Clone"; Call "putStoreLocked"; Ret].
+  [Lock "c"; DeferUnlock "c"; Call "GetStore"; IfE "store == nil" [Ret] []; Call "SaveStoreWeight"; IfE "err != nil" [Ret] []; Call "SetLeaderWeight"; Call "SetRegionWeight"; Call "Clone"; Call "putStoreLocked"; IfE "err != nil" [Call "SaveStoreWeight"; Ret] []; Ret].
 Proof. reflexivity. Qed.
 
 (* putStoreLocked saves first and touches the cache only after a successful save (model: put_locked) *)
@@ -60,7 +60,7 @@ Lemma skel_RemoveTombStoneRecords_ok : skel_RemoveTombStoneRecords =
   [Lock "c"; DeferUnlock "c"; Call "GetStores"; ForE [Call "IsTombstone"; IfE "store.IsTombstone()" [Call "GetRegionCount"; Call "deleteStoreLocked"; IfE "err != nil" [Ret] []] []]; Ret].
 Proof. reflexivity. Qed.
 
-(* deleteStoreLocked removes from storage first, then from the cache; the weight keys are not touched *)
+(* deleteStoreLocked removes from storage first (Storage.DeleteStore: weight keys, then the record), then from the cache *)
 Lemma skel_deleteStoreLocked_ok : skel_deleteStoreLocked =
   [IfE "c.storage != nil" [Call "DeleteStore"; IfE "err != nil" [Ret] []] []; Call "DeleteStore"; Ret].
 Proof. reflexivity. Qed.
@@ -92,7 +92,7 @@ Lemma guards_buryStore_ok : guards_buryStore =
 Proof. reflexivity. Qed.
 
 Lemma guards_SetStoreWeight_ok : guards_SetStoreWeight =
-  [("store == nil", "return errs.ErrStoreNotFound.FastGenByArgs(storeID)"); ("err != nil", "return err")].
+  [("store == nil", "return errs.ErrStoreNotFound.FastGenByArgs(storeID)"); ("err != nil", "return err"); ("err != nil", "...")].
 Proof. reflexivity. Qed.
 
 Lemma guards_checkStores_ok : guards_checkStores =
@@ -118,9 +118,9 @@ Lemma skel_grpc_StoreHeartbeat_ok : skel_grpc_StoreHeartbeat =
   [IfE "!s.isLocalRequest(forwardedHost)" [IfE "err != nil" [Ret] []; Ret] []; Call "validateRequest"; IfE "err != nil" [Ret] []; IfE "request.GetStats() == nil" [Ret] []; Call "GetRaftCluster"; IfE "rc == nil" [Ret] []; Call "checkStore"; IfE "pberr != nil" [Ret] []; Call "GetStore"; IfE "store == nil" [Ret] []; Call "HandleStoreHeartbeat"; IfE "err != nil" [Ret] []; Ret].
 Proof. reflexivity. Qed.
 
-(* MergeLabels works on the served slice itself: label.Value is assigned in place and res aliases storeLabels[:0] (model: merge_labels) *)
+(* MergeLabels first copies every served label into a fresh struct in a fresh slice; the merge then works on that copy (model: merge_labels) *)
 Lemma skel_MergeLabels_ok : skel_MergeLabels =
-  [Call "GetLabels"; Assign "storeLabels" ":= s.GetLabels()"; ForE [ForE [Call "EqualFold"; IfE "strings.EqualFold(label.Key, newLabel.Key)" [Assign "label.Value" "= newLabel.Value"] []]; Call "append"; Assign "storeLabels" "= append(storeLabels, newLabel)"]; Assign "res" ":= storeLabels[:0]"; ForE [IfE "l.Value != """"" [Call "append"; Assign "res" "= append(res, l)"] []]; Ret].
+  [Call "GetLabels"; Assign "storeLabels" ":= make([]*metapb.StoreLabel, 0, len(s.GetLabels())+len(labels))"; Call "GetLabels"; ForE [Call "append"; Assign "storeLabels" "= append(storeLabels, &metapb.StoreLabel{Key: l.Key, Value: l.Value})"]; ForE [ForE [Call "EqualFold"; IfE "strings.EqualFold(label.Key, newLabel.Key)" [Assign "label.Value" "= newLabel.Value"] []]; Call "append"; Assign "storeLabels" "= append(storeLabels, newLabel)"]; Assign "res" ":= storeLabels[:0]"; ForE [IfE "l.Value != """"" [Call "append"; Assign "res" "= append(res, l)"] []]; Ret].
 Proof. reflexivity. Qed.
 
 Lemma skel_opt_OfflineStore_ok : skel_opt_OfflineStore =
@@ -135,9 +135,9 @@ Lemma skel_opt_TombstoneStore_ok : skel_opt_TombstoneStore =
   [DeferE [Call "Clone"; Assign "meta" ":= proto.Clone(store.meta).(*metapb.Store)"; Assign "meta.State" "= metapb.StoreState_Tombstone"; Assign "store.meta" "= meta"]; Ret].
 Proof. reflexivity. Qed.
 
-(* two separate Save calls, leader first; an error after the first leaves one key written *)
+(* the old values are loaded first; two Save calls, leader first; on an error both keys are restored *)
 Lemma skel_storage_SaveStoreWeight_ok : skel_storage_SaveStoreWeight =
-  [Call "storeLeaderWeightPath"; Call "Save"; IfE "err != nil" [Ret] []; Call "storeRegionWeightPath"; Call "Save"; Ret].
+  [Call "storeLeaderWeightPath"; Call "Load"; IfE "err != nil" [Ret] []; Call "storeRegionWeightPath"; Call "Load"; IfE "err != nil" [Ret] []; Call "storeLeaderWeightPath"; Call "Save"; IfE "err == nil" [Call "storeRegionWeightPath"; Call "Save"] []; IfE "err != nil" [Call "storeLeaderWeightPath"; Call "restoreWeight"; Call "storeRegionWeightPath"; Call "restoreWeight"] []; Ret].
 Proof. reflexivity. Qed.
 
 Lemma skel_storage_SaveStore_ok : skel_storage_SaveStore =
@@ -145,12 +145,12 @@ Lemma skel_storage_SaveStore_ok : skel_storage_SaveStore =
 Proof. reflexivity. Qed.
 
 Lemma skel_storage_DeleteStore_ok : skel_storage_DeleteStore =
-  [Call "storePath"; Call "Remove"; Ret].
+  [Call "storeLeaderWeightPath"; Call "Load"; IfE "err != nil" [Ret] []; Call "storeRegionWeightPath"; Call "Load"; IfE "err != nil" [Ret] []; Call "storeLeaderWeightPath"; Call "Remove"; IfE "err == nil" [Call "storeRegionWeightPath"; Call "Remove"] []; IfE "err == nil" [Call "storePath"; Call "Remove"] []; IfE "err != nil" [Call "storeLeaderWeightPath"; Call "restoreWeight"; Call "storeRegionWeightPath"; Call "restoreWeight"] []; Ret].
 Proof. reflexivity. Qed.
 
 (* LoadStores joins each meta record with the two weight keys, default 1.0 (model: view_stored) *)
 Lemma skel_storage_LoadStores_ok : skel_storage_LoadStores =
-  [Call "storePath"; ForE [Call "storePath"; Call "LoadRange"; IfE "err != nil" [Ret] []; ForE [IfE "err != nil" [Ret] []; Call "storeLeaderWeightPath"; Call "loadFloatWithDefaultValue"; IfE "err != nil" [Ret] []; Call "storeRegionWeightPath"; Call "loadFloatWithDefaultValue"; IfE "err != nil" [Ret] []; Call "SetLeaderWeight"; Call "SetRegionWeight"; Call "NewStoreInfo"]; IfE "len(res) < minKVRangeLimit" [Ret] []]].
+  [Call "storePath"; ForE [Call "storePath"; Call "LoadRange"; IfE "err != nil" [Ret] []; ForE [IfE "err != nil" [Ret] []; Call "storeLeaderWeightPath"; Call "loadFloatWithDefaultValue"; IfE "err != nil" [Ret] []; Call "storeRegionWeightPath"; Call "loadFloatWithDefaultValue"; IfE "err != nil" [Ret] []; Call "SetLeaderWeight"; Call "SetRegionWeight"; Call "NewStoreInfo"]; IfE "len(res) < minKVRangeLimit || nextID == 0" [Ret] []]].
 Proof. reflexivity. Qed.
 
 (* IsCompatible: cluster < store, or same major.minor (model: compatible) *)
@@ -161,4 +161,10 @@ Proof. reflexivity. Qed.
 (* buryStore has exactly one production caller, checkStores: this is what makes `is_bury_hook o = false` cover every production history in C14_bury_only_empty *)
 Lemma bury_callers_ok : bury_callers =
   ["server/cluster/cluster.go:checkStores"].
+Proof. reflexivity. Qed.
+
+(* StoresStats.FilterUnhealthyStore (run by every store heartbeat) tolerates a statistics entry whose store record
+   RemoveTombStoneRecords has deleted: the nil test comes first (model: the heartbeat never fails on it) *)
+Lemma guards_FilterUnhealthyStore_ok : guards_FilterUnhealthyStore =
+  [("store == nil || store.IsTombstone() || store.IsUnhealthy() || store.IsPhysicallyDestroyed()", "...")].
 Proof. reflexivity. Qed.
